@@ -1707,10 +1707,22 @@ class _TotalJacInfo(object):
                                 rev_seeds = itermeta['seed_vars']
 
                             with relevance.seeds_active(fwd_seeds=fwd_seeds, rev_seeds=rev_seeds):
+                                # If nothing lies between these seeds and any variable of interest on
+                                # the other side, this part of the jacobian is zero (the solution
+                                # vectors have been zeroed).  A linear solve would skip every system,
+                                # the one holding the seed included, so an iterative solver could
+                                # never reduce its residual.
+                                if relevance._active and not relevance._current_rel_varray.any():
+                                    do_solve = False
+                                else:
+                                    do_solve = True
+
                                 # restore old linear solution if cache_linear_solution was set by
                                 # the user for any input variables involved in this linear solution.
                                 with model._scaled_context_all():
-                                    if (cache_key is not None and not has_lin_cons and
+                                    if not do_solve:
+                                        pass
+                                    elif (cache_key is not None and not has_lin_cons and
                                             self.mode == mode):
                                         self._restore_linear_solution(cache_key, mode)
                                         model._solve_linear(mode)
